@@ -31,7 +31,8 @@ EXPLANATION = (
 ASSUMPTIONS = ["KeySlotStore notifies on_remove/on_erase per its contract (C05)", "std::push_heap/pop_heap with std::greater keep the minimum at front"]
 DECIDED = ["a lifetime protocol", "b removal before addition", "c destruction order", "d per-key evaluation and attribution", "e parent re-arm",
            "f stop (shared C14.f)", "h fast path cannot starve a due child", "i stale delta bits never consumed",
-           'n key scans that create / re-use / drop children filter with slot_live']
+           'n key scans that create / re-use / drop children filter with slot_live',
+           'o bitmap positions use bits_per_word', 'p child-schedule heap ordered by deadline first']
 NOT_DECIDED = ["output key set equality", "per-key stream equality", "slot reuse arithmetic", "multi-TSD membership refresh"]
 
 
